@@ -4,6 +4,7 @@ import (
 	"bytes"
 	"fmt"
 	"io"
+	"net"
 
 	"github.com/tjfoc/gmsm/gmtls"
 	"github.com/tjfoc/gmsm/verifsim/pki"
@@ -40,7 +41,7 @@ const (
 var rfNames = []string{"none", "bitflip", "truncate+close", "truncate+fix-length", "extend", "length-field+n", "drop", "duplicate", "swap-adjacent", "replay-earlier", "cross-direction-inject", "header-type", "header-version", "fin-before-record", "fin-mid-header", "inject-cleartext-record", "cross-connection-inject"}
 
 var attackFaults = rfNames[1:]
-var attackReach = []string{"fault-on-finished", "fault-on-appdata", "fault-on-close-notify", "fatal-alert-seen", "eof-style-end", "exact-prefix-checked", "sticky-error-checked", "gm-cbc", "gm-gcm", "tls-path", "no-fault-fired", "nonce-audit", "header-bit", "iv-or-nonce-bit", "body-bit", "mac-or-tag-bit", "sweep-run", "long-session", "replay-at-distance>=255"}
+var attackReach = []string{"fault-on-finished", "fault-on-appdata", "fault-on-close-notify", "fatal-alert-seen", "eof-style-end", "exact-prefix-checked", "sticky-error-checked", "gm-cbc", "gm-gcm", "tls-path", "no-fault-fired", "nonce-audit", "header-bit", "iv-or-nonce-bit", "body-bit", "mac-or-tag-bit", "sweep-run", "long-session", "replay-at-distance>=255", "duplex-endpoints", "duplex-fault-while-writer-active"}
 
 func init() {
 	register(Family{Name: "tls-record-attack", Prop: "C07", ID: 701, Weight: 2, FaultNames: attackFaults, ReachNames: attackReach, Run: runRecordAttack})
@@ -67,6 +68,7 @@ type attackSession struct {
 	TLSSuite uint16
 	Writes   [2][]int // application write sizes per direction
 	Payload  [2][]byte
+	Duplex   bool             // endpoints write from a task of their own while reading
 	NetA     [2]simkit.NetCfg // client<->attacker (c2s, s2c)
 	NetB     [2]simkit.NetCfg // attacker<->server
 	Pol      simkit.Policy
@@ -138,6 +140,7 @@ func drawAttackSession(c *simkit.Choice, small bool) attackSession {
 	if !small {
 		a.ShortRnd = c.Bool(1, 4, simkit.LScen)
 		a.DynOn = c.Bool(1, 3, simkit.LScen)
+		a.Duplex = c.Bool(1, 3, simkit.LScen)
 		for i := 0; i < 2; i++ {
 			a.NetA[i] = simkit.DrawNetCfg(c)
 			a.NetB[i] = simkit.DrawNetCfg(c)
@@ -460,16 +463,20 @@ func (rl *relay) apply(rec []byte, idx int) bool {
 
 // attackEnd is what an endpoint of an attacked session observed.
 type attackEnd struct {
-	HsErr     error
-	HsDone    bool // Handshake returned nil
-	Read      []byte
-	ReadErr   error // nil = clean EOF
-	ReadDone  bool  // the read loop ended (EOF or error)
-	AfterN    int   // bytes returned by the extra Read after the error
-	AfterErr  error
-	WriteErr  error
-	KeyLog    bytes.Buffer
-	PrefixBad int // first offset at which a Read delivered a byte the peer did not send there (-1 = none)
+	HsErr      error
+	HsDone     bool // Handshake returned nil
+	Read       []byte
+	ReadErr    error // nil = clean EOF
+	ReadDone   bool  // the read loop ended (EOF or error)
+	AfterN     int   // bytes returned by the extra Read after the error
+	AfterErr   error
+	WriteErr   error
+	AfterWN    int // result of a Write issued after a Read had returned a non-EOF error
+	AfterWErr  error
+	AfterW     bool
+	WriterBusy bool // duplex: the writer task had not finished when the Read failed
+	KeyLog     bytes.Buffer
+	PrefixBad  int // first offset at which a Read delivered a byte the peer did not send there (-1 = none)
 }
 
 func attackCfg(a *attackSession, s *simkit.Sim, server bool, end *attackEnd) *gmtls.Config {
@@ -503,7 +510,9 @@ func attackCfg(a *attackSession, s *simkit.Sim, server bool, end *attackEnd) *gm
 }
 
 // endpointTask: handshake, write own payload, close-write, read to the end.
-func attackEndpoint(s *simkit.Sim, conn *gmtls.Conn, raw *simkit.Conn, writes []int, payload, expectFromPeer []byte, end *attackEnd) {
+// duplex: the writes run in a task of their own, concurrently with the reads
+// (an application with a reader and a writer goroutine).
+func attackEndpoint(s *simkit.Sim, conn *gmtls.Conn, raw *simkit.Conn, writes []int, payload, expectFromPeer []byte, end *attackEnd, duplex bool) {
 	end.PrefixBad = -1
 	end.HsErr = conn.Handshake()
 	if end.HsErr != nil {
@@ -511,16 +520,25 @@ func attackEndpoint(s *simkit.Sim, conn *gmtls.Conn, raw *simkit.Conn, writes []
 		return
 	}
 	end.HsDone = true
-	off := 0
-	for _, k := range writes {
-		if _, err := conn.Write(payload[off : off+k]); err != nil {
-			end.WriteErr = err
-			break
+	wr := func() {
+		off := 0
+		for _, k := range writes {
+			if _, err := conn.Write(payload[off : off+k]); err != nil {
+				end.WriteErr = err
+				break
+			}
+			off += k
 		}
-		off += k
+		if end.WriteErr == nil {
+			end.WriteErr = conn.CloseWrite()
+		}
 	}
-	if end.WriteErr == nil {
-		end.WriteErr = conn.CloseWrite()
+	var wt *simkit.Task
+	if duplex {
+		cur := s.CurTask()
+		wt = s.Spawn(cur.Name+"-w", cur.Node, wr)
+	} else {
+		wr()
 	}
 	buf := make([]byte, 20000)
 	for {
@@ -542,9 +560,20 @@ func attackEndpoint(s *simkit.Sim, conn *gmtls.Conn, raw *simkit.Conn, writes []
 		if err != nil {
 			end.ReadErr = err
 			end.ReadDone = true
+			end.WriterBusy = wt != nil && !wt.Done()
 			end.AfterN, end.AfterErr = conn.Read(buf)
+			// a record rejected locally is fatal for the connection, not for one
+			// caller: a Write that starts now must fail as well (an end of the
+			// transport stream is different: the write side may live on)
+			if oe, ok := err.(*net.OpError); ok && oe.Op == "local error" {
+				end.AfterW = true
+				end.AfterWN, end.AfterWErr = conn.Write([]byte("written after the fatal error"))
+			}
 			break
 		}
+	}
+	if wt != nil {
+		s.Join(wt)
 	}
 	conn.Close()
 }
@@ -588,10 +617,10 @@ func runAttack(c *simkit.Choice, r *simkit.Rec, a *attackSession, f *recFault, s
 		c2s.foreign, s2c.foreign = fr, fr
 	}
 	s.Spawn("cli", 0, func() {
-		attackEndpoint(s, gmtls.Client(cliRaw, attackCfg(a, s, false, &ce)), cliRaw, a.Writes[0], a.Payload[0], a.Payload[1], &ce)
+		attackEndpoint(s, gmtls.Client(cliRaw, attackCfg(a, s, false, &ce)), cliRaw, a.Writes[0], a.Payload[0], a.Payload[1], &ce, a.Duplex)
 	})
 	s.Spawn("srv", 1, func() {
-		attackEndpoint(s, gmtls.Server(srvRaw, attackCfg(a, s, true, &se)), srvRaw, a.Writes[1], a.Payload[1], a.Payload[0], &se)
+		attackEndpoint(s, gmtls.Server(srvRaw, attackCfg(a, s, true, &se)), srvRaw, a.Writes[1], a.Payload[1], a.Payload[0], &se, a.Duplex)
 	})
 	s.Spawn("atk-c2s", 2, c2s.run)
 	s.Spawn("atk-s2c", 2, s2c.run)
@@ -603,6 +632,12 @@ func runAttack(c *simkit.Choice, r *simkit.Rec, a *attackSession, f *recFault, s
 	if f.Dir == 1 {
 		rl = s2c
 		vict, sender = &ce, &se
+	}
+	if a.Duplex {
+		r.Reach(idx(attackReach, "duplex-endpoints"))
+		if vict.WriterBusy {
+			r.Reach(idx(attackReach, "duplex-fault-while-writer-active"))
+		}
 	}
 	sent := a.Payload[f.Dir]
 	suiteName := fmt.Sprintf("%04x", a.Suite)
@@ -628,6 +663,12 @@ func runAttack(c *simkit.Choice, r *simkit.Rec, a *attackSession, f *recFault, s
 	if s.Reason == simkit.StopBudget {
 		r.Violate("no-progress", site, fmt.Sprintf("step budget exhausted; blocked %v", s.Blocked))
 		return
+	}
+	for _, e := range []*attackEnd{&ce, &se} {
+		if e.AfterW && e.AfterWErr == nil {
+			r.Violate("write-after-fatal-error", site, fmt.Sprintf("a Read failed (%v) and a Write started afterwards succeeded (%d bytes): the failure was not fatal for the connection", e.ReadErr, e.AfterWN))
+			return
+		}
 	}
 	// prefix invariant: both directions, always
 	for _, e := range []*attackEnd{&ce, &se} {
